@@ -165,10 +165,11 @@ def _build_func_identifier(func):
 # source code to check if a function definition has changed
 _FUNCTION_HASHES = weakref.WeakKeyDictionary()
 
-# For each function identifier, a weak reference to the function whose code was
-# last written to the store by this process: another function with the same
-# identifier (e.g. an older definition that is still referenced) cannot rely on
-# the in-memory store above, as the code on disk is no longer its own.
+# For each store location and function identifier, a weak reference to the
+# function whose code was last written there by this process: another function
+# with the same identifier (e.g. an older definition that is still referenced),
+# or the same function cached in another location, cannot rely on the in-memory
+# store above, as the code on disk is not its own or has not been written yet.
 _LAST_FUNC_CODE_WRITERS = dict()
 
 
@@ -673,6 +674,11 @@ class MemorizedFunc(Logger):
         func_code_h = hash(getattr(self.func, "__code__", None))
         return id(self.func), hash(self.func), func_code_h
 
+    @property
+    def _func_code_key(self):
+        """Key of the in-memory record of the last writer of func_code.py."""
+        return (getattr(self.store_backend, "location", None), self.func_id)
+
     def _write_func_code(self, func_code, first_line):
         """Write the function code and the filename to a file."""
         # We store the first line because the filename and the function
@@ -693,7 +699,7 @@ class MemorizedFunc(Logger):
             func_hash = self._hash_func()
             try:
                 _FUNCTION_HASHES[self.func] = func_hash
-                _LAST_FUNC_CODE_WRITERS[self.func_id] = weakref.ref(self.func)
+                _LAST_FUNC_CODE_WRITERS[self._func_code_key] = weakref.ref(self.func)
             except TypeError:
                 # Some callable are not hashable
                 pass
@@ -713,7 +719,7 @@ class MemorizedFunc(Logger):
                 # hash. This is more likely to falsely change than have hash
                 # collisions, thus we are on the safe side.
                 func_hash = self._hash_func()
-                last_writer = _LAST_FUNC_CODE_WRITERS.get(self.func_id)
+                last_writer = _LAST_FUNC_CODE_WRITERS.get(self._func_code_key)
                 if (
                     func_hash == _FUNCTION_HASHES[self.func]
                     and last_writer is not None
